@@ -2,8 +2,8 @@
  * Scratch object = header with arbitrary magic + data block of exactly max_size bytes.
  * Representation invariant of a scratch space (established by secp256k1_scratch_create, kept by
  * alloc / apply_checkpoint, the latter proved here): alloc_size <= max_size. */
-#include "assumed.h"
-#include "small_tables.h"
+#define BP_MEMSET
+#include "assumed_bppp.h"
 #include "src/secp256k1.c"
 #include "post.h"
 #define MAXS ((size_t)1 << 30)
@@ -27,7 +27,7 @@ void h_alloc(void) {
     __CPROVER_assume(max_size <= MAXS && alloc_size <= max_size);
     mk_scratch(&s, &cb, max_size, alloc_size, good);
     good = (memcmp(s.magic, "scratch", 8) == 0);
-    g_k = k;
+    g_k = k; g_ms_idx = k;
     p = (unsigned char *)secp256k1_scratch_alloc(&cb, &s, size);
     rounded = (size + 15) & ~(size_t)15;           /* spec: size rounded up to the alignment (16) */
     __CPROVER_assert(s.max_size == max_size, "C19 scratch_alloc: max_size never changes");
